@@ -742,6 +742,26 @@ def k_c12(ctx):
             if rng.random() < 0.5: cont.append(Line(d0 + datetime.timedelta(days=rng.choice([1, 40])), t, "BUY", "5", rng.choice(gen.PRICE), "GBP", None))
             vs["anchor%02d%02d" % (mm, dd)] = p + cont
         groups["g%d" % i] = {"base": p, "vars": vs, "last": last}
+    # long histories kept in an export's own order (grouped by security, not by date), with days on which one security is sold in
+    # several rows between which rows of other securities fall once the dates are sorted
+    for i in range(ctx.n(120, 1500)):
+        ticks = rng.sample(gen.TICKS, 3); d0 = gen.start_date(rng, 2016, 2020); rows = {t: [] for t in ticks}
+        for t in ticks: rows[t].append(Line(d0, t, "BUY", "10000", rng.choice(gen.PRICE), "GBP", None))
+        nd = rng.randint(8, 16); day = d0
+        for j in range(nd):
+            day = day + datetime.timedelta(days=rng.choice([3, 10, 29, 31, 45]))
+            for t in ticks:
+                for k in range(rng.choice([0, 1, 2, 2, 3])):
+                    rows[t].append(Line(day, t, "SELL", rng.choice(["1", "7", "10", "20"]), rng.choice(gen.PRICE), "GBP", rng.choice(gen.FEES)))
+                if rng.random() < 0.3: rows[t].append(Line(day, t, "BUY", rng.choice(["5", "17"]), rng.choice(gen.PRICE), "GBP", None))
+        p = [l for t in ticks for l in rows[t]]
+        if rng.random() < 0.5: rng.shuffle(p)
+        last = max(l.date for l in p); vs = {}
+        for j, extra in enumerate((1, 4, 9)):
+            cont = [Line(last + datetime.timedelta(days=31 + 5 * q), rng.choice(ticks), rng.choice(["BUY", "SELL"]), "3", rng.choice(gen.PRICE), "GBP", None) for q in range(extra)]
+            vs["long+%d" % extra] = p + cont
+        ctx.count("long_history_rows", len(p) // 10 * 10)
+        groups["L%d" % i] = {"base": p, "vars": vs, "last": last}
     # the first line the property allows in a continuation: a purchase exactly 31 days after a final sale, with the sale placed
     # where day counting is delicate (December of leap and ordinary years, around 29 February, year ends)
     for i in range(ctx.n(300, 4000)):
